@@ -82,13 +82,10 @@ pub fn sf_err(e: SavefileError) -> OpErr {
 
 pub const PASSWORD: &str = "correct horse";
 pub fn key_of(password: &str) -> [u8; 32] {
-    // SHA-256 via ring is not exposed by savefile; derive the key the documented way through a
-    // tiny local implementation would be another trusted component, so we use ring through
-    // savefile's own file helpers where a password is needed and a fixed raw key here.
+    // the documented key derivation of save_encrypted_file: SHA-256 of the password
+    let d = ring::digest::digest(&ring::digest::SHA256, password.as_bytes());
     let mut k = [0u8; 32];
-    for (i, b) in password.bytes().enumerate() {
-        k[i % 32] ^= b.wrapping_add(i as u8);
-    }
+    k.copy_from_slice(d.as_ref());
     k
 }
 
@@ -123,11 +120,11 @@ pub fn save_full<X: Serialize + WithSchema>(c: Container, ver: u32, x: &X, w: &m
         Container::NoSchema => savefile::save_noschema(&mut w, ver, x),
         Container::Compressed => savefile::save_compressed(&mut w, ver, x),
         Container::Encrypted => {
+            // exactly what save_encrypted_file does with its File
             let mut cw = CryptoWriter::new(&mut w, key_of(PASSWORD))?;
-            let r = Serializer::save(&mut cw, ver, x, true);
-            let r2 = cw.flush_final();
-            r?;
-            r2
+            Serializer::save(&mut cw, ver, x, true)?;
+            cw.flush()?;
+            Ok(())
         }
         Container::Bare => Serializer::bare_serialize(&mut w, ver, x),
     })
